@@ -11,8 +11,10 @@ PARTIAL = ("Modelled at allocation-sequence fidelity (Confuse.Model.Fault) and p
            "For these the tie compares return value and full dump with the model for every k. Every other entry point (cfg_init, the parser, section "
            "creation, path lookups, search path, tilde expansion, bulk set, list set/append, print) is NOT modelled under faults: for them the check "
            "is the implementation-side verdict for every k - no crash / abort / sanitizer report, the call returns, the context can be dumped, printed, "
-           "looked up and freed, and the counting allocator reports zero live blocks afterwards. That part is fault enumeration supporting the "
-           "claim, not a theorem. Known finding K02 (abort() when memory runs out while a parsed default is installed) is recognised and reported.")
+           "looked up and freed, the counting allocator reports zero live blocks afterwards, and - 'either completes or reports failure' - whenever the "
+           "call answers what it answers without a fault, the configuration (both contexts for cfg_init) equals the fault-free one. That part is fault "
+           "enumeration supporting the claim, not a theorem. It found F40 (cfg_init_defaults() ignored or abort()ed on allocation failures; formerly "
+           "known finding K02), now repaired.")
 VARIANT = "fault"
 CASE_TIMEOUT = 20
 RULE = ("workloads covering every public entry point (init, parse from buffer/file/stream with sections, lists, calls, includes, "
@@ -20,7 +22,7 @@ RULE = ("workloads covering every public entry point (init, parse from buffer/fi
         "tilde expansion; path lookups; print); for each workload and each k the k-th allocation request issued by confuse.c during the "
         "operation under test fails (counting allocator force-included into the build, scanner-internal allocations untouched); oracle on "
         "the implementation: no crash / abort / sanitizer report, the call returns, the context (if any) can be dumped, printed and freed, "
-        "and no block allocated by the library is alive afterwards; for the store-level operations the model predicts return value and "
+        "no block allocated by the library is alive afterwards, and a call that reports success left exactly the fault-free configuration; for the store-level operations the model predicts return value and "
         "resulting tree for every k; non-trivial = the failing allocation was not the first of the call")
 EXHAUSTIVE = {"quick": True, "thorough": True}
 
@@ -118,11 +120,44 @@ def project(lines, case):
     return [l for l in lines if l.startswith("H ")]
 
 
+BASELINE = {}
+
+
+def _after_fault(il, case):
+    """(result lines of the operation under test, dumps that follow it) - everything after the second LIVE-less marker:
+    the operation comes right after the first 'L' line (the LIVE before it)"""
+    try:
+        i = next(k for k, l in enumerate(il) if l.startswith("L "))
+    except StopIteration:
+        return None
+    rest = il[i + 1:]
+    res = [l for l in rest if l.startswith(("R ", "S "))][:1]
+    dumps, cur = [], None
+    for l in rest:
+        if l.startswith(("V ", "U ")):
+            cur = (cur or []) + [l]
+        elif l == ".":
+            dumps.append(cur or [])
+            cur = None
+    return res, dumps
+
+
 def oracle(case, il, ctx):
     _k(case)
     hz = [l for l in il if l.startswith("H ")]
     if hz:
         return "allocation failure %s in workload '%s' hurt the process: %s" % (case.meta["k"], case.meta["workload"], "; ".join(hz[:2]))
+    # "the call either completes or reports failure through its return value": when the operation under test answers what it
+    # answers without a fault, the context (and the second context for 'init') must be what it is without a fault
+    af = _after_fault(il, case)
+    if af is not None and "origin" not in case.meta:
+        if case.meta["k"] is None:
+            BASELINE[case.meta["workload"]] = af
+        else:
+            base = BASELINE.get(case.meta["workload"])
+            if base is not None and base[0] == ["R 0"] and af[0] == base[0] and af[1] != base[1]:
+                return ("allocation failure %s in workload '%s': the call reported the same result as without a fault (%s) but the configuration "
+                        "differs from the fault-free one (neither completed nor reported)" % (case.meta["k"], case.meta["workload"], " ".join(af[0])))
     ls = [l for l in il if l.startswith("L ")]
     if not ls or ls[-1] != "L 0":
         return "blocks allocated by the library are still alive after cfg_free (leak after an injected failure): " + (ls[-1] if ls else "-")
